@@ -125,9 +125,11 @@ C06Notations ==
        /\ (ReqH \in 1..12 => A1("ruleNamedHour", T1(104, ReqH)) = Want)       \* named hour
        /\ (ReqH = 0 => A1("ruleMidnight", T0(105)) = Want)
        \* <hour> in the <part of day>: afternoon/evening/night make hours below 12 pm
-       /\ (ReqH >= 12 => \A p \in {"afternoon", "evening", "night"} \cap DOMAIN PodTable :
-              (ReqH - 12 # 0 \/ TRUE) =>
+       /\ (ReqH >= 13 => \A p \in {"afternoon", "evening", "night"} \cap DOMAIN PodTable :
               A2("ruleTODPOD", A1("ruleHHMM", Tok(128, ReqH - 12, X, X, "X")), A1("rulePOD", Tok(107, X, X, X, p))) = Want)
+       \* hour 0 is midnight next to any part of day ("0 uhr nachts"; repaired in 18d3c04)
+       /\ (ReqH = 0 => \A p \in {"afternoon", "evening", "night", "morning"} \cap DOMAIN PodTable :
+              A2("ruleTODPOD", A1("ruleHHMM", Tok(128, 0, X, X, "X")), A1("rulePOD", Tok(107, X, X, X, p))) = Want)
        /\ (ReqH \in 1..11 => \A p \in {"morning", "forenoon"} \cap DOMAIN PodTable :
               A2("ruleTODPOD", A1("ruleHHMM", Tok(128, ReqH, X, X, "X")), A1("rulePOD", Tok(107, X, X, X, p))) = Want)
   /\ (ReqM % 5 = 0 /\ ReqH * 100 + ReqM \notin {ts.y, AddMonths(ts, 3).y}) =>
